@@ -53,6 +53,16 @@ mod rt {
         pub fn drop_in<T>(&self, v: T) {
             drop(v)
         }
+        /// Wait for every blocking task queued so far (exact with one blocking thread, `CCH_SINGLE=1`).
+        pub fn barrier(&self) {
+            async_std::task::block_on(async_std::task::spawn_blocking(|| ()));
+        }
+        /// Occupy a blocking thread until the receiver fires (with one blocking thread: later tasks queue up).
+        pub fn gate(&self, rx: std::sync::mpsc::Receiver<()>) {
+            let _ = async_std::task::spawn_blocking(move || {
+                let _ = rx.recv_timeout(std::time::Duration::from_secs(5));
+            });
+        }
     }
 }
 
@@ -84,6 +94,16 @@ mod rt {
         pub fn drop_in<T>(&self, v: T) {
             let _guard = self.0.enter();
             drop(v)
+        }
+        /// Wait for every blocking task queued so far (exact with one blocking thread, `CCH_SINGLE=1`).
+        pub fn barrier(&self) {
+            let _ = self.0.block_on(async { tokio::task::spawn_blocking(|| ()).await });
+        }
+        /// Occupy a blocking thread until the receiver fires (with one blocking thread: later tasks queue up).
+        pub fn gate(&self, rx: std::sync::mpsc::Receiver<()>) {
+            let _ = self.0.spawn_blocking(move || {
+                let _ = rx.recv_timeout(std::time::Duration::from_secs(5));
+            });
         }
     }
 }
@@ -808,6 +828,43 @@ impl State {
                     Some(n) => json!(n),
                     None => Value::Null,
                 })
+            }
+            // start a write, poll it once and drop the future (cancellation): "pending" => null, ready => the count
+            "wabandon" => {
+                let id = req_id(op, "w")?;
+                #[allow(unused_variables)]
+                let data = req_hex(op, "data")?;
+                let w = match self.writers.get_mut(&id) {
+                    Some(w) => w,
+                    None => return no_handle("w", id),
+                };
+                match w {
+                    W::Sync(_) => Err(Fail::Unsupported),
+                    #[cfg(any(feature = "astd", feature = "tok"))]
+                    W::Async(w) => {
+                        let rt = &self.rt;
+                        // the only blocking thread (CCH_SINGLE=1) is held while the write is polled once: a write that
+                        // needs the blocking pool is then certainly still pending when its future is dropped
+                        let (tx, rx) = mpsc::channel::<()>();
+                        rt.gate(rx);
+                        std::thread::sleep(Duration::from_millis(1));
+                        let polled = timed(|| {
+                            rt.block_on(async {
+                                let mut fut = Box::pin(w.write(&data));
+                                futures::poll!(fut.as_mut())
+                            })
+                        });
+                        let _ = tx.send(());
+                        // let the abandoned blocking task finish before the next call looks at the writer
+                        rt.barrier();
+                        std::thread::sleep(Duration::from_millis(2));
+                        match polled {
+                            std::task::Poll::Pending => Ok(Value::Null),
+                            std::task::Poll::Ready(Ok(n)) => Ok(json!(n)),
+                            std::task::Poll::Ready(Err(e)) => Err(e.into()),
+                        }
+                    }
+                }
             }
             "wflush" => {
                 let id = req_id(op, "w")?;
